@@ -261,6 +261,11 @@ class C17(core.Check):
             (9, [['kw', B(b'ON')], ['sp'], ['kw', B(b'ERL')], ['sp'], ['kw', B(b'GOSUB')], ['sp'], ['jump', 6553], ['p', 44],
                  ['jump', 0]]),
         ]
+        # keyword directly followed by a type character / punctuation (theorem C17_keyword_then_punct_roundtrip)
+        for i, (kwd, ch) in enumerate([(b'INPUT', b'$'), (b'INT', b'%'), (b'ABS', b'!'), (b'PRINT', b'#'), (b'KEY', b'('),
+                                       (b'RND', b')'), (b'INPUT', b','), (b'PRINT', b';'), (b'NEXT', b':'),
+                                       (b'CLOSE', b'#'), (b'LOCATE', b','), (b'USING', b'$')]):
+            item_lines.append((10 + i, [['kw', B(kwd)], ['p', bytearray(ch)[0]]]))
         out += [{'k': 'items', 'syn': i % 3, 'n': n, 'items': its} for i, (n, its) in enumerate(item_lines)]
         out.append({'k': 'items', 'syn': 1, 'n': 3, 'items': [['kw', B(b'NOISE')], ['sp'], ['int', 1], ['p', 58],
                                                               ['kw', B(b'TERM')]]})
